@@ -134,9 +134,16 @@ func generateRequiredFieldsSnippet(label string, bodySchema *schema.BodySchema, 
 // ensure nested fields are accounted for. It takes care to add newlines and
 // tabs where necessary to have a snippet be formatted correctly in the target client
 func requiredFieldsSnippet(bodySchema *schema.BodySchema, placeholder int, indentCount int) string {
+	snippetText, _ := requiredFieldsSnippetNext(bodySchema, placeholder, indentCount)
+	return snippetText
+}
+
+// requiredFieldsSnippetNext is requiredFieldsSnippet which also returns the
+// first tab-stop number the snippet has not used.
+func requiredFieldsSnippetNext(bodySchema *schema.BodySchema, placeholder int, indentCount int) (string, int) {
 	// there are edge cases where we might not have a body, end early here
 	if bodySchema == nil {
-		return ""
+		return "", placeholder
 	}
 
 	snippetText := ""
@@ -209,12 +216,14 @@ func requiredFieldsSnippet(bodySchema *schema.BodySchema, placeholder int, inden
 		snippetText += fmt.Sprintf("%s%s%s {\n", indent, blockType, labels)
 		// we increment indentCount by 1 to indicate these are nested underneath
 		// recurse through the body to find any attributes or blocks and print snippet
-		snippetText += requiredFieldsSnippet(blockSchema.Body, placeholder, indentCount+1)
+		var nestedText string
+		nestedText, placeholder = requiredFieldsSnippetNext(blockSchema.Body, placeholder, indentCount+1)
+		snippetText += nestedText
 		// final newline is needed here to properly format each block
 		snippetText += fmt.Sprintf("%s}\n", indent)
 	}
 
-	return snippetText
+	return snippetText, placeholder
 }
 
 func sortedSchemaKeys(m map[schema.SchemaKey]*schema.BodySchema) []schema.SchemaKey {
